@@ -465,7 +465,10 @@ pub struct CheckResult {
 /// The main `check` sub-command.
 pub fn cmd_check<E: Engine>(engine: &E, opts: &Options) -> i32 {
     let started = Instant::now();
-    let known = load_known_findings(&opts.verif_dir.join("known_findings.txt"));
+    let known_path = std::env::var("VERIF_KNOWN_FINDINGS")
+        .map(PathBuf::from)
+        .unwrap_or_else(|_| opts.verif_dir.join("known_findings.txt"));
+    let known = load_known_findings(&known_path);
     println!(
         "seed={} engine={} property={} tier={} runs={} workers={} profile={}",
         opts.seed,
@@ -933,6 +936,53 @@ pub fn main_cli<E: Engine>(engine: &E) -> i32 {
                     2
                 }
             }
+        }
+        "minimize" => {
+            // minimize --property P --indices i [out-file]: shrink the violation of run i and write it
+            let Some(idx) = indices.first() else { return 2 };
+            let (scn, out) = run_one(engine, &opts, *idx);
+            let Some(v0) = out.violation else {
+                println!("run {idx} has no violation");
+                return 0;
+            };
+            let original = engine.size(&scn);
+            let (min_scn, min_v, execs) = shrink(engine, scn, v0, 12000);
+            let path = positional.first().cloned().unwrap_or_else(|| {
+                opts.verif_dir
+                    .join("replays")
+                    .join(format!("{}-{}-{}.json", opts.property, opts.seed, idx))
+                    .display()
+                    .to_string()
+            });
+            let j = replay_file_json(engine, &min_scn, &min_v, &opts, *idx, original, execs);
+            if let Err(e) = std::fs::write(&path, j.to_string_pretty()) {
+                eprintln!("cannot write {path}: {e}");
+                return 2;
+            }
+            println!("clause={} step={} :: {}", min_v.clause, min_v.step, min_v.detail);
+            println!("minimised {} -> {} ; replay={}", original, engine.size(&min_scn), path);
+            1
+        }
+        "survey" => {
+            // survey --property P --runs N : histogram of violation clauses over N runs (triage aid)
+            let n = if opts.runs == 0 { 2000 } else { opts.runs };
+            let mut hist: BTreeMap<String, (u64, u64)> = BTreeMap::new();
+            let mut errors = 0u64;
+            for idx in 0..n {
+                let (_, out) = run_one(engine, &opts, idx);
+                if let Some(v) = out.violation {
+                    let e = hist.entry(v.clause).or_insert((0, idx));
+                    e.0 += 1;
+                }
+                if out.harness_error.is_some() {
+                    errors += 1;
+                }
+            }
+            for (clause, (count, first)) in &hist {
+                println!("{count:>8}  first_run={first:<6} {clause}");
+            }
+            println!("runs={n} harness_errors={errors}");
+            0
         }
         "dump" => {
             for idx in &indices {
